@@ -5,7 +5,8 @@ import AscentVerif.Model.Surface
 In its real order:
 
 1. `rule_expand_macro_invocations` — in-program macros, depth budget 100, per-invocation renaming of the
-   variables that originate in the macro body (`body_items_rename_macro_originated_vars`);
+   variables that originate in the macro body (`body_items_rename_macro_originated_vars`; since fix 3a6dc9a it also
+   visits the conditions ATTACHED to a body clause, `r(x) if c`, `r(x) let y = e`: finding F25);
 2. `rule_desugar_disjunction_nodes` — one rule per choice of disjuncts (`products`);
 3. `rule_desugar_pattern_args` — `?pat` becomes a variable `__arg_pattern_N` plus `if let pat = __arg_pattern_N`;
 4. `rule_desugar_wildcards` — `_` in clause arguments becomes `__N`;
@@ -172,15 +173,16 @@ def renSArg (ops : Ops E B G A) (τ : Var → Var) : SArg E P → SArg E P
   | .wild => .wild
   | .pat p vs => .pat p (vs.map τ)
 
-/-- rename at the positions `body_item_visit_bound_vars_mut` and `body_item_visit_exprs_free_vars_mut` reach.
-`attached = false` is the real code: the conditions ATTACHED to a body clause are not visited, and the list of
-aggregated variables of an `agg` is not visited (its relation arguments are).  `attached = true` renames everywhere. -/
-def renFItem (ops : Ops E B G A) (attached : Bool) (τ : Var → Var) : FItem E B G P A → FItem E B G P A
-  | .clause r as conds => .clause r (as.map (renSArg ops τ)) (if attached then conds.map (renCond ops τ) else conds)
+/-- rename at the positions `body_item_visit_bound_vars_mut` and `body_item_visit_exprs_free_vars_mut` reach.  The conditions
+ATTACHED to a body clause are visited like free-standing ones (fix 3a6dc9a of finding F25; before, they were skipped).
+`full = false` is the real code: the list of aggregated variables of an `agg` is not visited (its relation arguments are).
+`full = true` renames everywhere. -/
+def renFItem (ops : Ops E B G A) (full : Bool) (τ : Var → Var) : FItem E B G P A → FItem E B G P A
+  | .clause r as conds => .clause r (as.map (renSArg ops τ)) (conds.map (renCond ops τ))
   | .cond c => .cond (renCond ops τ c)
   | .gen v g => .gen (τ v) (ops.subG (fun x => ops.varE (τ x)) g)
   | .agg a =>
-    let bound' := if attached then a.boundArgs.map τ else a.boundArgs
+    let bound' := if full then a.boundArgs.map τ else a.boundArgs
     .agg { outs := a.outs.map τ, fn := a.fn, boundArgs := bound', rel := a.rel,
            args := a.args.map fun
              | .wild => .wild
@@ -196,28 +198,33 @@ def renMInv (ops : Ops E B G A) (τ : Var → Var) (inv : MInv E) : MInv E :=
       | .expr e => .expr (renE ops τ e) }
 
 mutual
-def renItem (ops : Ops E B G A) (attached : Bool) (τ : Var → Var) : SItem E B G P A (MInv E) → SItem E B G P A (MInv E)
-  | .flat f => .flat (renFItem ops attached τ f)
-  | .disj alts => .disj (renAlts ops attached τ alts)
+def renItem (ops : Ops E B G A) (full : Bool) (τ : Var → Var) : SItem E B G P A (MInv E) → SItem E B G P A (MInv E)
+  | .flat f => .flat (renFItem ops full τ f)
+  | .disj alts => .disj (renAlts ops full τ alts)
   | .mac m => .mac (renMInv ops τ m)
-def renItems (ops : Ops E B G A) (attached : Bool) (τ : Var → Var) : SItems E B G P A (MInv E) → SItems E B G P A (MInv E)
+def renItems (ops : Ops E B G A) (full : Bool) (τ : Var → Var) : SItems E B G P A (MInv E) → SItems E B G P A (MInv E)
   | .nil => .nil
-  | .cons i rest => .cons (renItem ops attached τ i) (renItems ops attached τ rest)
-def renAlts (ops : Ops E B G A) (attached : Bool) (τ : Var → Var) : SAlts E B G P A (MInv E) → SAlts E B G P A (MInv E)
+  | .cons i rest => .cons (renItem ops full τ i) (renItems ops full τ rest)
+def renAlts (ops : Ops E B G A) (full : Bool) (τ : Var → Var) : SAlts E B G P A (MInv E) → SAlts E B G P A (MInv E)
   | .nil => .nil
-  | .cons a rest => .cons (renItems ops attached τ a) (renAlts ops attached τ rest)
+  | .cons a rest => .cons (renItems ops full τ a) (renAlts ops full τ rest)
 end
 
+/-- `CondClause::bound_vars`: the variables a condition binds (`let` / `if let` patterns) -/
+def boundVarsC : Cond E B P → List Var
+  | .ifc _ => []
+  | .letc v _ => [v]
+  | .ifLet _ vs _ => vs
+
 /-- `body_item_get_bound_vars`: the variables in binding positions (clause arguments that are identifiers, pattern variables,
-`let` / `if let` / `for` / aggregation results of free-standing items; NOT the conditions attached to a clause) -/
+the `let` / `if let` patterns of the conditions attached to a clause — since fix 3a6dc9a —, `let` / `if let` / `for` /
+aggregation results of free-standing items) -/
 def boundVarsF : FItem E B G P A → List Var
-  | .clause _ as _ => as.flatMap fun
+  | .clause _ as conds => (as.flatMap fun
       | .var v => [v]
       | .pat _ vs => vs
-      | _ => []
-  | .cond (.letc v _) => [v]
-  | .cond (.ifLet _ vs _) => vs
-  | .cond (.ifc _) => []
+      | _ => []) ++ conds.flatMap boundVarsC
+  | .cond c => boundVarsC c
   | .gen v _ => [v]
   | .agg a => a.outs
   | .neg _ _ => []
@@ -263,8 +270,8 @@ deriving Repr, DecidableEq
 abbrev Defs (E B G P A : Type) := List (MacroDef E B G P A)
 
 /-- expansion of ONE invocation, given the expansion of its (instantiated) body items at the next depth:
-`attached` selects the real renaming pass (`false`) or the one that also reaches attached conditions (`true`, used by the ideal) -/
-def expandInv (ops : Ops E B G A) (defs : Defs E B G P A) (attached : Bool)
+`full` selects the real renaming pass (`false`) or the one that also reaches the aggregated variables of an `agg` (`true`) -/
+def expandInv (ops : Ops E B G A) (defs : Defs E B G P A) (full : Bool)
     (recur : ExpSt → SItems E B G P A (MInv E) → Except ExpandErr (SItems E B G P A (MInv E) × ExpSt))
     (st : ExpSt) (inv : MInv E) : Except ExpandErr (SItems E B G P A (MInv E) × ExpSt) :=
   match defs[inv.mac]? with
@@ -277,7 +284,7 @@ def expandInv (ops : Ops E B G A) (defs : Defs E B G P A) (attached : Bool)
     | .error e => .error e
     | .ok (exp, st') =>
       let τ := renameMap j st'.gs exp
-      let renamed := renItems ops attached τ exp
+      let renamed := renItems ops full τ exp
       .ok (renItems ops true (untagMap j) renamed, { st' with gs := st'.gs + (originated j exp).length })
 
 /-- the alternatives of a disjunction: every alternative is expanded at the next depth -/
@@ -293,7 +300,7 @@ def expandAltsWith {S : Type} (recur : S → SItems E B G P A (MInv E) → Excep
       | .ok (rest', st2) => .ok (.cons a' rest', st2)
 
 /-- the items of one sequence at one depth; `recur` expands at the next depth -/
-def expandItemsWith (ops : Ops E B G A) (defs : Defs E B G P A) (attached : Bool)
+def expandItemsWith (ops : Ops E B G A) (defs : Defs E B G P A) (full : Bool)
     (recur : ExpSt → SItems E B G P A (MInv E) → Except ExpandErr (SItems E B G P A (MInv E) × ExpSt)) :
     ExpSt → SItems E B G P A (MInv E) → Except ExpandErr (SItems E B G P A (MInv E) × ExpSt)
   | st, .nil => .ok (.nil, st)
@@ -305,23 +312,23 @@ def expandItemsWith (ops : Ops E B G A) (defs : Defs E B G P A) (attached : Bool
         match expandAltsWith recur st alts with
         | .error e => .error e
         | .ok (alts', st1) => .ok (.cons (.disj alts') .nil, st1)
-      | .mac inv => expandInv ops defs attached recur st inv
+      | .mac inv => expandInv ops defs full recur st inv
     match one with
     | .error e => .error e
     | .ok (is, st1) =>
-      match expandItemsWith ops defs attached recur st1 rest with
+      match expandItemsWith ops defs full recur st1 rest with
       | .error e => .error e
       | .ok (rest', st2) => .ok (is.append rest', st2)
 
 /-- `body_item_expand_macros` applied to every item of a sequence with depth budget `depth`:
 an item at budget 0 is the error "recursively defined Ascent macro" -/
-def expandBody (ops : Ops E B G A) (defs : Defs E B G P A) (attached : Bool) :
+def expandBody (ops : Ops E B G A) (defs : Defs E B G P A) (full : Bool) :
     Nat → ExpSt → SItems E B G P A (MInv E) → Except ExpandErr (SItems E B G P A (MInv E) × ExpSt)
   | 0 => fun st items =>
     match items with
     | .nil => .ok (.nil, st)
     | .cons _ _ => .error .recursive
-  | d + 1 => fun st items => expandItemsWith ops defs attached (expandBody ops defs attached d) st items
+  | d + 1 => fun st items => expandItemsWith ops defs full (expandBody ops defs full d) st items
 
 /-- head position: no renaming (head clauses bind nothing); identifiers of the macro body keep their spelling -/
 def expandHeadsWith (ops : Ops E B G A) (defs : Defs E B G P A)
@@ -354,9 +361,9 @@ def expandHeads (ops : Ops E B G A) (defs : Defs E B G P A) : Nat → List (SHea
 def macroDepth : Nat := 100
 
 /-- `rule_expand_macro_invocations`: body first (its own `GenSym`), then the heads -/
-def expandRule (ops : Ops E B G A) (defs : Defs E B G P A) (attached : Bool) (r : SRule E B G P A (MInv E)) :
+def expandRule (ops : Ops E B G A) (defs : Defs E B G P A) (full : Bool) (r : SRule E B G P A (MInv E)) :
     Except ExpandErr (SRule E B G P A (MInv E)) :=
-  match expandBody ops defs attached macroDepth {} r.body with
+  match expandBody ops defs full macroDepth {} r.body with
   | .error e => .error e
   | .ok (body, _) =>
     match expandHeads ops defs macroDepth r.heads with
